@@ -31,7 +31,7 @@ T_Begin == Ev("begin") /\ Begin([from |-> Rec[l].from, mode |-> Rec[l].mode, str
 T_Read  == Ev("read")  /\ ObsRead(Rec[l].req, Rec[l].got, Rec[l].d0, Rec[l].d1)
 T_Write == Ev("write") /\ ObsWrite(Rec[l].len, Rec[l].acc, Rec[l].frames, Rec[l].partial, Rec[l].ext, Rec[l].over)
 T_Flush == Ev("flush") /\ ObsFlush
-T_End   == Ev("end")   /\ End(Rec[l].res, Rec[l].key, Rec[l].digest, Rec[l].cmp, Rec[l].readmsg, Rec[l].frames)
+T_End   == Ev("end")   /\ End(Rec[l].res, Rec[l].key, Rec[l].digest, Rec[l].cmp, Rec[l].readmsg, Rec[l].frames, Rec[l].recok)
 
 TNext == T_Case \/ T_Begin \/ T_Read \/ T_Write \/ T_Flush \/ T_End
 TSpec == TInit /\ [][TNext]_tvars
